@@ -10,7 +10,8 @@ namespace NemoVerif.Closed
 
 inductive Prim (L : Type) where
   | label (n : L)                       -- Label(name)
-  | goto (l : L)                        -- Goto(label, expression)
+  | goto (l : L)                        -- Goto(label, expression) with a real condition
+  | jump (l : L)                        -- Goto(label) whose expression is the constant "True": unconditional
   | fork (uid : L) (labels : List L)    -- ForkHead(fork_uid, labels)
   | merge (uid : L)                     -- MergeHeads(fork_uid)
   | waitHeads (n : Nat)                 -- WaitForHeads(number)
@@ -32,6 +33,7 @@ variable {L : Type}
 /-- every label / uid an element makes `slide` look up in `FlowConfig.element_labels` -/
 def Prim.targets : Prim L → List L
   | .goto l => [l]
+  | .jump l => [l]
   | .fork _ ls => ls
   | .catchFail (some l) => [l]
   | .brk (some l) => [l]
@@ -166,6 +168,10 @@ def step [DecidableEq L] (p : List (Prim L)) (h : Head L) (cond : Bool) : Step L
         | some i => .next [{ h with pos := i + 1 }]
         | none => .invalidLabel
       else .next [{ h with pos := h.pos + 1 }]
+    | .jump l =>
+      match lookupLabel p l with
+      | some i => .next [{ h with pos := i + 1 }]
+      | none => .invalidLabel
     | .fork _ ls =>
       match lookupAll p ls with
       | some is => .next (is.map fun i => { pos := i, handlers := h.handlers, scopes := h.scopes })
@@ -272,6 +278,7 @@ def okStep [DecidableEq L] (R : L → St L → Prop) (e : Prim L) (st nxt : St L
   match e with
   | .label _ => nxt = st
   | .goto l => R l st ∧ nxt = st
+  | .jump l => R l st
   | .fork _ ls => ∀ l ∈ ls, R l st
   | .abort => ∀ l rest, st.h = l :: rest → R l st
   | .brk (some l) => R l st
@@ -303,12 +310,12 @@ def whenElseInLoop : List (Prim String) :=
   [.label "wb", .goto "we",
    .beginScope "s", .fork "cf" ["init_a"],
    .label "init_a", .catchFail (some "fail_a"), .fork "gf" ["group_a_0"],
-   .label "group_a_0", .specOp "match" false false, .goto "case_a",
-   .label "case_a", .merge "cf", .catchFail none, .endScope "s", .specOp "send" false false, .goto "when_end",
-   .label "fail_a", .waitHeads 1, .catchFail none, .goto "when_else",
-   .label "when_else", .waitHeads 1, .goto "when_else_stmt",
+   .label "group_a_0", .specOp "match" false false, .jump "case_a",
+   .label "case_a", .merge "cf", .catchFail none, .endScope "s", .specOp "send" false false, .jump "when_end",
+   .label "fail_a", .waitHeads 1, .catchFail none, .jump "when_else",
+   .label "when_else", .waitHeads 1, .jump "when_else_stmt",
    .label "when_else_stmt", .specOp "send" false false,
    .label "when_end",
-   .goto "wb", .label "we"]
+   .jump "wb", .label "we"]
 
 end NemoVerif.Closed
